@@ -5,6 +5,8 @@
 name: array_map_get
 define: U_GET, VA_COMP_KEY, VA_SLOTS_NONNULL, VA_RECORD_LAST
 src: array.c, objpair.c, obj.c
+native: array_map
+native_includes: array.c
 enforce: spif_array_map_get
 backend: sat
 loops: 1
@@ -13,6 +15,8 @@ loops: 1
 name: array_has_key
 define: U_HAS_KEY, VA_COMP_KEY, VA_SLOTS_NONNULL, VA_RECORD_LAST
 src: array.c, objpair.c, obj.c
+native: array_map
+native_includes: array.c
 enforce: spif_array_has_key
 replace: spif_array_map_get
 backend: sat
@@ -21,6 +25,8 @@ backend: sat
 name: array_map_remove
 define: U_MREMOVE, VA_COMP_KEY, VA_SLOTS_NONNULL
 src: array.c, objpair.c, obj.c
+native: array_map
+native_includes: array.c
 enforce: spif_array_map_remove
 backend: sat
 flags: --slice-formula
@@ -41,7 +47,7 @@ loops: 1
 #include "array.h"
 #include "src/array.c"
 
-#define MAP_PRE(probe) (ARRAY_VALID(self) && MAP_PAIR_K(self) && VEC_GHOSTS(self, probe) && VEC_SORTED_AT_J(self, 1))
+#define MAP_PRE(probe) (ARRAY_VALID_W(self) && MAP_PAIR_K(self) && VEC_GHOSTS(self, probe) && VEC_SORTED_AT_J(self, 1))
 
 #if defined(U_GET) || defined(U_HAS_KEY)
 /* get(k): NULL iff no pair has key k (boundary argument as for the vector find); a non-NULL result
@@ -95,6 +101,8 @@ void harness(void) { spif_array_t self; spif_obj_t item = nondet_ptr(); spif_arr
 name: array_has_value
 define: U_HAS_VALUE, VA_COMP_KEY, VA_SLOTS_NONNULL, VA_RECORD_LAST
 src: array.c, objpair.c, obj.c
+native: array_map
+native_includes: array.c
 enforce: spif_array_has_value
 backend: sat
 loops: 1
@@ -103,7 +111,7 @@ loops: 1
 /* has_value(v): TRUE iff some pair's value equals v.  Ghosts: vg_e1 = v, vg_e3 = the ghost pair's
  * value object.  A TRUE answer comes from the pair compared last (vg_last_a is its value). */
 static spif_bool_t spif_array_has_value(spif_array_t self, spif_obj_t value)
-__CPROVER_requires(ARRAY_VALID(self) && MAP_PAIR_K(self) && vg_e1 == value && VA_KEYS_CONSISTENT)
+__CPROVER_requires(ARRAY_VALID_W(self) && MAP_PAIR_K(self) && vg_e1 == value && VA_KEYS_CONSISTENT)
 __CPROVER_requires(vg_k >= (size_t) self->len || (self->items[vg_k] == vg_e2 && PAIR_K(self)->value == vg_e3 && vg_key3 == VKEYOF(PAIR_K(self)->value)))
 __CPROVER_assigns(vg_last_a, vm_scratch)
 __CPROVER_ensures(__CPROVER_return_value == TRUE || __CPROVER_return_value == FALSE)
@@ -118,6 +126,8 @@ void harness(void) { spif_array_t self; spif_obj_t value = nondet_ptr(); spif_ar
 name: array_get_keys
 define: U_GET_KEYS, VA_COMP_KEY, VA_SLOTS_NONNULL
 src: array.c, objpair.c, obj.c
+native: array_map
+native_includes: array.c
 enforce: spif_array_get_keys
 backend: sat
 loops: 1
@@ -126,6 +136,8 @@ loops: 1
 name: array_get_values
 define: U_GET_VALUES, VA_COMP_KEY, VA_SLOTS_NONNULL
 src: array.c, objpair.c, obj.c
+native: array_map
+native_includes: array.c
 enforce: spif_array_get_values
 backend: sat
 loops: 1
@@ -142,7 +154,7 @@ loops: 1
 # define MEMBER value
 #endif
 static spif_list_t GETFN(spif_array_t self, spif_list_t out)
-__CPROVER_requires(ARRAY_VALID(self) && MAP_PAIR_K(self) && (vg_k >= (size_t) self->len || self->items[vg_k] == vg_e2))
+__CPROVER_requires(ARRAY_VALID_W(self) && MAP_PAIR_K(self) && (vg_k >= (size_t) self->len || self->items[vg_k] == vg_e2))
 __CPROVER_requires((out == NULL || __CPROVER_is_fresh(out, sizeof(struct spif_array_t_struct))) && spif_array_listclass == &a_class)
 __CPROVER_requires(vg_app_cnt == 0 && vg_dup_cnt == 0 && VELEM_VALID(vg_dup_obj))
 __CPROVER_assigns(vg_cur, vg_dup_cnt, vg_app_cnt, vg_app_k, vm_scratch, __CPROVER_object_whole(vg_dup_obj))
@@ -160,6 +172,8 @@ void harness(void) { spif_array_t self; spif_list_t out; GETFN(self, out); VERIF
 name: array_set
 define: U_SET, VA_COMP_KEY, VA_SLOTS_NONNULL, VM_PAIR_BY_INDEX
 src: array.c, objpair.c, obj.c
+native: array_map
+native_includes: array.c
 enforce: spif_array_set
 replace: spif_array_insert
 funcs: spif_objpair_new_from_both, spif_objpair_set_value
@@ -175,7 +189,7 @@ loops: 1
  * and C03.objpair_comp).  The tie "vg_e1 == obj" of the C04 precondition cannot be asserted here
  * (the pair does not exist before the call); everything else of the precondition is. */
 static spif_bool_t spif_array_insert(spif_array_t self, spif_obj_t obj)
-__CPROVER_requires(ARRAY_VALID(self) && self->len < VCAPL && obj != (spif_obj_t) NULL && VEC_SORTED_AT_J(self, 0))
+__CPROVER_requires(ARRAY_VALID_W(self) && self->len < VCAPL && obj != (spif_obj_t) NULL && VEC_SORTED_AT_J(self, 0))
 __CPROVER_requires(vg_k >= (size_t) self->len || self->items[vg_k] == vg_e2)
 __CPROVER_assigns(ARRAY_FRAME(self); vg_exit)
 __CPROVER_frees(self->items)
@@ -234,6 +248,8 @@ void harness(void) { spif_array_t self; spif_obj_t key, value; spif_array_set(se
 name: array_get_pairs
 define: U_GET_PAIRS, VA_COMP_KEY, VA_SLOTS_NONNULL, VM_DUP_IS_PAIR, VM_PAIR_BY_INDEX
 src: array.c, objpair.c, obj.c
+native: array_map
+native_includes: array.c
 enforce: spif_array_get_pairs
 backend: sat
 loops: 1
@@ -242,6 +258,8 @@ loops: 1
 name: array_map_dup
 define: U_MAP_DUP, VA_COMP_KEY, VA_SLOTS_NONNULL, VM_DUP_IS_PAIR
 src: array.c, objpair.c, obj.c
+native: array_map
+native_includes: array.c
 enforce: spif_array_map_dup
 backend: sat
 loops: 1
@@ -250,7 +268,7 @@ loops: 1
 /* get_pairs(list): as get_keys, the item appended for slot vg_k being a fresh, caller-owned COPY of
  * the pair (own key and value copies) */
 static spif_list_t spif_array_get_pairs(spif_array_t self, spif_list_t out)
-__CPROVER_requires(ARRAY_VALID(self) && MAP_PAIR_K(self) && (vg_k >= (size_t) self->len || self->items[vg_k] == vg_e2))
+__CPROVER_requires(ARRAY_VALID_W(self) && MAP_PAIR_K(self) && (vg_k >= (size_t) self->len || self->items[vg_k] == vg_e2))
 __CPROVER_requires((out == NULL || __CPROVER_is_fresh(out, sizeof(struct spif_array_t_struct))) && spif_array_listclass == &a_class)
 __CPROVER_requires(vg_app_cnt == 0 && vg_dup_cnt == 0 && VM_DUP_PAIR_FRESH)
 __CPROVER_assigns(vg_cur, vg_dup_cnt, vg_app_cnt, vg_app_k, vm_scratch, VM_DUP_PAIR_FRAME)
@@ -267,7 +285,7 @@ void harness(void) { spif_array_t self; spif_list_t out; spif_array_get_pairs(se
 /* C05 for the map class: dup = fresh container, fresh slot array, slot vg_k = a fresh equal copy of
  * the pair (own key / value copies); the original is not written */
 static spif_array_t spif_array_map_dup(spif_array_t self)
-__CPROVER_requires(ARRAY_VALID(self) && MAP_PAIR_K(self) && spif_array_mapclass == &am_class && vg_dup_cnt == 0 && VM_DUP_PAIR_FRESH)
+__CPROVER_requires(ARRAY_VALID_W(self) && MAP_PAIR_K(self) && spif_array_mapclass == &am_class && vg_dup_cnt == 0 && VM_DUP_PAIR_FRESH)
 __CPROVER_assigns(vg_cur, vg_dup_cnt, vm_scratch, VM_DUP_PAIR_FRAME)
 __CPROVER_ensures(__CPROVER_is_fresh(__CPROVER_return_value, sizeof(*self)))
 __CPROVER_ensures(__CPROVER_return_value->len == self->len && SPIF_OBJ_CLASS(__CPROVER_return_value) == SPIF_OBJ_CLASS(self))
